@@ -595,7 +595,7 @@ class JSONPathEnvironment:
         if isinstance(left, bool):
             return isinstance(right, bool) and left == right
 
-        return left == right
+        return _deep_eq(left, right)
 
     def _lt(self, left: object, right: object) -> bool:
         if isinstance(left, str) and isinstance(right, str):
@@ -611,3 +611,26 @@ class JSONPathEnvironment:
             return left < right
 
         return False
+
+
+def _deep_eq(left: object, right: object) -> bool:
+    """Deep equality that never equates a Boolean with a number, at any depth."""
+    if isinstance(left, bool) or isinstance(right, bool):
+        return isinstance(left, bool) and isinstance(right, bool) and left == right
+
+    if isinstance(left, Mapping) and isinstance(right, Mapping):
+        return len(left) == len(right) and all(
+            key in right and _deep_eq(value, right[key]) for key, value in left.items()
+        )
+
+    if (
+        isinstance(left, Sequence)
+        and isinstance(right, Sequence)
+        and not isinstance(left, str)
+        and not isinstance(right, str)
+    ):
+        return len(left) == len(right) and all(
+            _deep_eq(a, b) for a, b in zip(left, right)  # noqa: B905
+        )
+
+    return left == right
